@@ -150,3 +150,41 @@ def value_fp_bits(v, eb, sb):
             if kind == "NaN":
                 return (emax << (sb - 1)) | (1 << (sb - 2))
     raise ValueError(v)
+
+
+def check_many(prefix_lines, queries, solver="z3", timeout=300, mem_gb=8):
+    """Many small satisfiability queries over one shared prefix in ONE solver process (push / assert / check-sat / pop): process
+    start-up, not solving, dominates thousands of tiny queries.  `queries`: list of lists of assertion terms.
+    Returns a list of 'sat' | 'unsat' | 'inconclusive' (any `(error` line makes the whole batch inconclusive)."""
+    if not queries:
+        return []
+    lines = list(prefix_lines)
+    for k, q in enumerate(queries):
+        lines.append("(push 1)")
+        for a in q:
+            lines.append(f"(assert {a})")
+        lines.append("(check-sat)")
+        lines.append(f'(echo "end-{k}")')
+        lines.append("(pop 1)")
+    text = "\n".join(lines) + "\n"
+    cmd = list(SOLVERS[solver])
+    if solver.startswith("cvc5"):
+        cmd.append("--incremental")
+    try:
+        p = subprocess.run(cmd, input=text, capture_output=True, text=True, timeout=timeout, preexec_fn=_limit(mem_gb))
+    except subprocess.TimeoutExpired:
+        return ["inconclusive"] * len(queries)
+    out = p.stdout + p.stderr
+    if "(error" in out:
+        return ["inconclusive"] * len(queries)
+    res, cur = [], None
+    for line in out.splitlines():
+        line = line.strip().strip('"')
+        if line in ("sat", "unsat", "unknown"):
+            cur = line
+        elif line.startswith("end-"):
+            res.append(cur if cur in ("sat", "unsat") else "inconclusive")
+            cur = None
+    if len(res) != len(queries):
+        return ["inconclusive"] * len(queries)
+    return res
